@@ -327,7 +327,7 @@ func errStr(err error) string {
 	if err == nil {
 		return ""
 	}
-	return hexAddr.ReplaceAllString(err.Error(), "0xADDR")
+	return stripTmp(hexAddr.ReplaceAllString(err.Error(), "0xADDR"))
 }
 
 // loadProject writes the scenario's files and loads them with the real loader.
